@@ -111,6 +111,7 @@ func (e *Engine) resetPath(dec []bool) {
 	e.outputs = 0
 	e.failSeq = 0
 	e.pending = e.pending[:0]
+	e.implied = map[string]bool{}
 	e.tracking = false
 	e.changed = false
 	e.realSeq = 0
